@@ -1,30 +1,67 @@
 #!/venv/bin/python
-"""Regenerate the table of seeded changes in DESIGN.md (between the SEEDED-TABLE markers) from /verif/seeded/*/meta.json."""
+"""Regenerate (a) /verif/seeded/INDEX.md, one row per seeded change, and (b) the per-property summary in DESIGN.md between the
+SEEDED-TABLE markers, from /verif/seeded/*/meta.json; (c) /verif/benign/INDEX.md from /verif/benign/*/meta.json."""
+import collections
 import json
 import pathlib
 import re
 
 VERIF = pathlib.Path(__file__).resolve().parent.parent
 rows = []
-for d in sorted((VERIF / 'seeded').iterdir()):
+per = collections.OrderedDict()
+for d in sorted((VERIF / 'seeded').iterdir(), key=lambda p: (p.name.split('-')[0], int(p.name.split('-')[1])) if '-' in p.name and p.name.split('-')[1].isdigit() else (p.name, 0)):
     mp = d / 'meta.json'
     if not mp.exists():
         continue
     m = json.loads(mp.read_text())
     summ = re.sub(r'\s+', ' ', m.get('summary', '')).replace('|', '/')
     summ = re.sub(r'^#+\s*', '', summ)
-    summ = re.sub(r'^(Mutant|Mutation|Change)\s*\d*\s*[-:–—.]*\s*', '', summ, flags=re.I)
+    summ = re.sub(r'^(C\d\d\s*)?(Mutant|Mutation|Change)\s*\d*\s*[-:–—.]*\s*', '', summ, flags=re.I)
     obl = []
     for p, fs in (m.get('first_findings') or {}).items():
         for f in fs[:1]:
             obl.append(f.split(' ', 1)[0])
     files = ', '.join(pathlib.Path(f).name for f in (m.get('files') or []))
-    own = m['property'] in (m.get('caught_by') or [])
-    rows.append(f"| {d.name} | {files} | {summ[:150]} | {', '.join(m.get('caught_by') or []) or '**missed**'} | {', '.join(sorted(set(obl)))} | {'yes' if own else 'other check'} |")
-table = ['| id | file(s) | change (first lines of the author\'s note) | caught by | first obligation(s) reported | by its own property\'s check |', '|---|---|---|---|---|---|'] + rows
+    cb = m.get('caught_by') or []
+    own = m['property'] in cb
+    rows.append(f"| {d.name} | {files} | {summ[:170]} | {', '.join(cb) or '**missed**'} | {', '.join(sorted(set(obl)))} | {'yes' if own else 'other check' if cb else 'no'} |")
+    s = per.setdefault(m['property'], {'n': 0, 'own': 0, 'other': 0, 'missed': 0, 'obl': collections.Counter(), 'also': collections.Counter()})
+    s['n'] += 1
+    s['own' if own else 'other' if cb else 'missed'] += 1
+    for o in obl:
+        if o.startswith(m['property']):
+            s['obl'][o] += 1
+    for p in cb:
+        if p != m['property']:
+            s['also'][p] += 1
+index = ['# Seeded property-breaking changes', '',
+         'One directory per change: `patch.diff`, `demo.py` (fails with the patch, passes without), the author\'s `notes.md`, `meta.json`.', '',
+         '| id | file(s) | change (first lines of the author\'s note) | caught by | first obligation(s) reported | by its own property\'s check |', '|---|---|---|---|---|---|'] + rows
+(VERIF / 'seeded' / 'INDEX.md').write_text('\n'.join(index) + '\n')
+table = ['| property | changes | caught by its own check | only by another property\'s check | missed | own obligations that fired (times) | other checks that also fired |', '|---|---|---|---|---|---|---|']
+tot = collections.Counter()
+for p, s in per.items():
+    table.append(f"| {p} | {s['n']} | {s['own']} | {s['other']} | {s['missed']} | {', '.join(f'{o.split(chr(46))[1]}×{n}' if n > 1 else o.split(chr(46))[1] for o, n in sorted(s['obl'].items(), key=lambda kv: int(kv[0].split('.')[1])))} | {', '.join(f'{q}×{n}' for q, n in sorted(s['also'].items()))} |")
+    for k in ('n', 'own', 'other', 'missed'):
+        tot[k] += s[k]
+table.append(f"| **all** | **{tot['n']}** | **{tot['own']}** | **{tot['other']}** | **{tot['missed']}** | | |")
 p = VERIF / 'DESIGN.md'
 s = p.read_text()
 a, b = s.index('<!-- SEEDED-TABLE-BEGIN -->'), s.index('<!-- SEEDED-TABLE-END -->')
 s = s[:a] + '<!-- SEEDED-TABLE-BEGIN -->\n' + '\n'.join(table) + '\n' + s[b:]
 p.write_text(s)
-print(len(rows), 'rows')
+brow = []
+for d in sorted((VERIF / 'benign').iterdir(), key=lambda p: (p.name.split('-')[0], int(p.name.split('-')[1])) if '-' in p.name and p.name.split('-')[1].isdigit() else (p.name, 0)):
+    mp = d / 'meta.json'
+    if not mp.exists():
+        continue
+    m = json.loads(mp.read_text())
+    summ = re.sub(r'\s+', ' ', m.get('summary', '')).replace('|', '/')
+    summ = re.sub(r'^#+\s*', '', summ)
+    files = ', '.join(pathlib.Path(f).name for f in (m.get('files') or []))
+    al = m.get('alarms', m.get('alarms_when_imported')) or []
+    brow.append(f"| {d.name} | {files} | {summ[:200]} | {', '.join(al) or 'silent'} |")
+(VERIF / 'benign' / 'INDEX.md').write_text('\n'.join(['# Behaviour-preserving refactorings', '',
+    'One directory per refactoring: `patch.diff`, the author\'s `notes.md`, `compare.py` (prints digests of end-to-end runs; identical with and without the patch), `meta.json`.', '',
+    '| id | file(s) | refactoring (first lines of the author\'s note) | checks that fire |', '|---|---|---|---|'] + brow) + '\n')
+print(len(rows), 'seeded rows,', len(brow), 'benign rows')
